@@ -324,4 +324,41 @@ func checkC05(c *Check) {
 		found = isC && t == 0 && isS
 	}
 	c.Obl(found, "C05.R6", "logout-expires-cookie", P.Pos(R.OIDCProcess.Pos()), "logout sets the session cookie with a constant value and timeout 0", "the logout answer does not expire the session cookie (timeout 0)")
+	// … on every object that can be the logout answer: each possible value of the denial written under the
+	// logout match either carries the expiring cookie or none of them does (the plain error denial)
+	for _, ci := range callsToFn(R.OIDCProcess, R.DenyWriter) {
+		fs := FactsOf(R.OIDCProcess).At(ci)
+		inLogout := false
+		for cond, pol := range fs {
+			if lc, _, ok := asCall(cond); ok && lc.Common().StaticCallee() == R.LogoutMatch && pol {
+				inLogout = true
+			}
+		}
+		if !inLogout {
+			continue
+		}
+		leaves := Leaves(ci.Common().Args[1], leafOpts{})
+		with, without := 0, 0
+		for _, l := range leaves {
+			l = resolveCell(stripConv(l))
+			has := false
+			for _, si := range callsToFn(R.OIDCProcess, m.SetCookieWriter.Fn) {
+				for _, dl := range Leaves(si.Common().Args[m.SetCookieWriter.DenyIdx], leafOpts{}) {
+					if sameVal(resolveCell(stripConv(dl)), l) {
+						has = true
+					}
+				}
+			}
+			if has {
+				with++
+			} else {
+				without++
+			}
+		}
+		if with == 0 {
+			continue // the error denial
+		}
+		c.Obl(without == 0, "C05.R6", "logout-answer-always-expires/"+nthCallKey(ci), P.Pos(ci.Pos()), "every object that can be the logout answer received the expiring cookie",
+			fmt.Sprintf("the logout answer can be an object that never received the expiring Set-Cookie (%d of %d possible objects): the cookie survives the logout", without, with+without))
+	}
 }
